@@ -7,7 +7,7 @@ def _(self, data: Val, values: Opt(Val)) -> Bytes:
     ensures(list(result) == content_of(ident(self), data))
 
 
-@contract("StandardEncodeMixin.encode", props=["C03", "C01"], for_class="*")
+@contract("StandardEncodeMixin.encode", props=["C03", "C01"], for_class="any")
 def _(self, data: Val, encoded: ByteArray, values: Opt(Val)):
     # X.690 8.1: identifier octets, definite minimal length octets (DER 10.1), contents octets; nothing else
     # is appended and nothing before is touched
